@@ -10,6 +10,7 @@ import OFV.Proofs.C09
 import OFV.Proofs.C09WF
 import OFV.Proofs.C09Parity
 import OFV.Proofs.C09Parse
+import OFV.Proofs.C09Inter
 
 namespace OFV.C09
 open OFV.Model.C09 OFV.Spec.C09
@@ -228,6 +229,18 @@ theorem checksum_code_valid (n : Nat) (odd : Bool) (c : Code) (h : checksumCode 
     (v : List Nat) (hlen : v.length = n) (hb : ∀ x ∈ v, x ≤ 1) (hpar : (v.sum % 2 == 1) = odd) :
     ValidOn c v := checksum_valid' n odd c h v hlen hb hpar
 
+/-- `interleaved_code(2h)`: the loop builds the permutation matrix sending mode `2i` to qubit `i`
+and mode `2i + 1` to qubit `h + i` (rows `sigma`), the decoder is its transpose, and the code
+decodes what it encodes for every `h` and every 0/1 vector. -/
+theorem interleaved_code_valid (h : Nat) (c : Code) (hc : interleavedCode (2 * h) = .ok c) (v : List Nat)
+    (hb : ∀ x ∈ v, x ≤ 1) : ValidOn c v := interleaved_valid' h c hc v hb
+
+/-- the documented order: row `r` of the encoder of `interleaved_code(2h)` is the unit vector of
+column `2r` (`r < h`) resp. `2(r - h) + 1`: even modes first, then odd modes. -/
+theorem interleaved_code_order (h r : Nat) (hr : r < 2 * h) :
+    (interleavedMat (2 * h)).getD r [] = (List.range (2 * h)).map fun c => if sigma h r = c then 1 else 0 :=
+  interleaved_row h r hr
+
 /-! ## the literal segment codes (tables re-extracted from the source on every run) -/
 
 instance (c : Code) (v : List Nat) : Decidable (ValidOn c v) := by unfold ValidOn; infer_instance
@@ -270,7 +283,7 @@ example : (jordanWignerCode 3).toBool = true := by decide
 example (c : Code) (h : jordanWignerCode 3 = .ok c) : ValidOn c [1, 0, 1] :=
   jw_code_valid 3 c h _ (by decide)
 example : (parityCode 4).toBool = true ∧ (parityCode 1).toBool = true := by decide
-example : (checksumCode 4 true).toBool = true := by decide
+example : (checksumCode 4 true).toBool = true ∧ (interleavedCode 6).toBool = true := by decide
 
 example : evalPoly (fun i => i == 1) (imul [[some 0], [some 1]] [[some 1], [none]]) = false := by decide
 
